@@ -1,4 +1,5 @@
 import Anndb.Model.RaftLoop
+import Anndb.Model.SnapTransfer
 import Anndb.Proofs.Quorum
 import Anndb.Generated
 /-!
@@ -197,5 +198,43 @@ example : Contiguous 0 sampleRun := by
   refine ⟨by decide, by decide, by decide, trivial⟩
 
 example : (run canonical 3 ⟨⟨1, 0, 4⟩, 0, []⟩ sampleRun).1.applied = [1, 2, 3] := by decide
+
+
+/-- a snapshot whose send failed is always reported to raft as failed — a follower in the snapshot
+state is sent nothing else until then — and a peer a send to which failed is dialled again
+(regenerated) -/
+theorem snapshot_send_failure_always_reported : Generated.snapshotSendFailureAlwaysReported = true := by decide
+
+
+/-! ## a snapshot for a replica that fell behind a compaction
+
+"Once faults stop, all live replicas converge" needs the leader to send the snapshot *again* when a
+transfer was lost. etcd/raft does that only when the host reports the failure. -/
+
+/-- **never waiting for a snapshot that nobody sends**: if every failed send of a snapshot is reported
+to raft, no reachable state has the leader in the snapshot state with nothing in flight and nothing
+installed — whatever messages are lost, and how often -/
+theorem snapshot_transfer_never_stuck (c : SnapTransfer.Cfg) (r : SnapTransfer.Reach true c) :
+    ¬ SnapTransfer.Stuck c := by
+  have inv : c.lstate = SnapTransfer.LState.snapshot → c.inflight = true ∨ c.installed = true := by
+    induction r with
+    | init => intro h; cases h
+    | @step c c' _ s ih =>
+      cases s with
+      | send h1 h2 => intro _; exact Or.inl rfl
+      | deliver h1 => intro _; exact Or.inr rfl
+      | ack h1 h2 => intro h; cases h
+      | lose h1 => intro h; simp at h
+  intro ⟨h1, h2, h3⟩
+  rcases inv h1 with h | h
+  · rw [h2] at h; cases h
+  · rw [h3] at h; cases h
+
+/-- a transport that keeps a lost transfer to itself (seeded change C05-E: "the deadline passed, the
+snapshot may still arrive") leaves the follower stuck after one lost message -/
+theorem unreported_loss_is_stuck : ∃ c, SnapTransfer.Reach false c ∧ SnapTransfer.Stuck c := by
+  refine ⟨⟨.snapshot, false, false⟩, ?_, rfl, rfl, rfl⟩
+  have h1 : SnapTransfer.Reach false ⟨.snapshot, true, false⟩ := .step .init (.send _ rfl rfl)
+  exact .step h1 (.lose _ rfl)
 
 end Anndb.RaftLoop
